@@ -233,12 +233,14 @@ Definition check_c04 (t : trace) : bool :=
 Definition INT_MAX : Z := 2147483647.
 
 (* "blocks no longer than until the earliest timer deadline (rounded up to a millisecond)":
-   the poll timeout for a remaining distance of d microseconds *)
-Definition spec_timeout (d : N) : Z :=
-  let sec := (d / 1000000)%N in
-  let usec := (d mod 1000000)%N in
-  if (INT_MAX / 1000 <=? Z.of_N sec)%Z then INT_MAX
-  else Z.of_N (sec * 1000 + (usec + 999) / 1000)%N.
+   for a remaining distance of d microseconds the poll timeout must be exactly d rounded up to
+   whole milliseconds; only when that does not fit the int argument of poll(2) (the distance is
+   INT_MAX / 1000 seconds or more) may it be smaller - any value from 0 up to the rounded
+   distance, never beyond it (the loop then simply polls again) *)
+Definition ceil_ms (d : N) : Z := Z.of_N ((d + 999) / 1000).
+Definition timeout_ok (d : N) (t : Z) : bool :=
+  if (Z.of_N (d / 1000000) <? INT_MAX / 1000)%Z then Z.eqb t (ceil_ms d)
+  else (0 <=? t)%Z && (t <=? ceil_ms d)%Z.
 
 Inductive mode := MOut | MRun | MSpin.
 Inductive phase := PhStart | PhFirst (timeout : Z) | PhLoop.
@@ -316,13 +318,15 @@ Definition fresh_clock (c : c5) : option tv :=
   | _ => None
   end.
 
-(* the timeout the first poll of a run must carry *)
-Definition first_timeout (c : c5) : option Z :=
+(* is t acceptable as the timeout of the first poll of a run?  -1 exactly when no timer is
+   registered; otherwise judged against the distance from the clock reading taken just before
+   to the earliest deadline *)
+Definition first_timeout_ok (c : c5) (t : Z) : bool :=
   match min_due (d_tmrs c) with
-  | None => Some (-1)%Z
+  | None => Z.eqb t (-1)
   | Some m => match fresh_clock c with
-              | Some now => Some (spec_timeout (m - us now))
-              | None => None
+              | Some now => timeout_ok (m - us now) t
+              | None => false
               end
   end.
 
@@ -368,10 +372,7 @@ Definition cstep5 (c : c5) (e : event) : option c5 :=
       if d_drain c then None else
       match d_phase c with
       | PhStart =>
-        match first_timeout c with
-        | Some want => if Z.eqb timeout want then mk (if retry then PhFirst want else PhLoop) else None
-        | None => None
-        end
+        if first_timeout_ok c timeout then mk (if retry then PhFirst timeout else PhLoop) else None
       | PhFirst want => if Z.eqb timeout want then mk (if retry then PhFirst want else PhLoop) else None
       | PhLoop => if Z.eqb timeout 0 then mk PhLoop else None
       end
